@@ -18,6 +18,7 @@ inductive Err where
   | missingDs64   -- RuntimeError('malformed rf64 or bw64 file: missing ds64 chunk')
   | badId         -- ValueError('found chunk header with invalid ID ...')
   | chunkEnd      -- ValueError('... chunk ends after the end of the file ...')
+  | dataPlaceholder -- ValueError('data chunk size has not been set; the file was not closed properly')
   | missingChunk  -- ValueError('required chunk "..." not found')
   | fmtSize       -- ValueError('illegal format chunk size')
   | cbSize        -- ValueError('fmt chunk not big enough for cbSize' / 'invalid cbSize ...')
@@ -90,6 +91,7 @@ def readDs64 (f : Bytes) : Except Err (Ds64 × Nat) :=
 inductive Hdr where
   | eof                              -- `return None`
   | badId                            -- `raise ValueError("found chunk header with invalid ID ...")`
+  | placeholder                      -- `raise ValueError("data chunk size has not been set; ...")`
   | hdr (id : Bytes) (size : Nat)
   deriving Repr
 
@@ -100,6 +102,14 @@ def hdrSize (ds : Option Ds64) (id : Bytes) (sz0 : Nat) : Nat :=
   | none => sz0
   | some d64 => if id = idData then d64.dataSize else (d64.lookup id).getD sz0
 
+/-- the `elif` of the size correction in `_read_chunk_header`: in a plain RIFF file (no ds64 chunk, i.e.
+`self.fileFormat not in [b'RF64', b'BW64']`) a `data` header whose size field is `0xFFFFFFFF` — the
+placeholder `Bw64Writer` leaves until `close()` — is rejected. -/
+def isPlaceholder (ds : Option Ds64) (id : Bytes) (sz0 : Nat) : Bool :=
+  match ds with
+  | some _ => false
+  | none => id = idData && sz0 = 4294967295
+
 /-- `_read_chunk_header` with the buffer at `pos`.  `ds` is `some` for RF64/BW64 files. -/
 def readChunkHeader (f : Bytes) (ds : Option Ds64) (pos : Nat) : Hdr :=
   let d := readAt f pos 8
@@ -107,6 +117,8 @@ def readChunkHeader (f : Bytes) (ds : Option Ds64) (pos : Nat) : Hdr :=
   let id := d.take 4
   let sz0 := fromLE (d.drop 4)
   if !validId id then .badId else
+  -- correct chunkSize for rf64 and bw64 files / reject the unset data size of a plain RIFF file
+  if isPlaceholder ds id sz0 then .placeholder else
   .hdr id (hdrSize ds id sz0)
 
 /-- `_read_chunks`.  Every iteration that does not return advances the position by at least 8, so
@@ -117,6 +129,7 @@ def readChunks (f : Bytes) (ds : Option Ds64) : Nat → Nat → Table → List W
     match readChunkHeader f ds pos with
     | .eof => .ok (t, w)
     | .badId => .error .badId
+    | .placeholder => .error .dataPlaceholder
     | .hdr id sz =>
       let t' : Table := (id, sz, pos) :: t
       let e := pos + 8 + (sz + sz % 2)                          -- always skip an even number of bytes
